@@ -146,4 +146,113 @@ def ask (pr : Proto) (l : Layout) (buf : Bytes) : Except Exc (List Int) × Bytes
           if (l.msgId : Int) ≠ msgId then (.error .instrument, b2)
           else (fromBuffer l db, b2)
 
+
+/-- the timeout both `transport.read` calls of `ask` receive: `if timeout is None: timeout = self._timeout` -/
+def askTimeout (dflt t : Option Nat) : Option Nat :=
+  match t with
+  | none => dflt
+  | some x => some x
+
+/-- the `transport.read(nbytes, timeout)` calls `ask` makes, in order -/
+def askReads (pr : Proto) (l : Layout) (dflt t : Option Nat) (buf : Bytes) : List (Nat × Option Nat) :=
+  let tmo := askTimeout dflt t
+  match readN pr.headerSize buf with
+  | (none, _) => [(pr.headerSize, tmo)]
+  | (some hb, _) =>
+    if l.headerOnly then [(pr.headerSize, tmo)]
+    else match fromBuffer pr.hdrData hb with
+      | .error _ => [(pr.headerSize, tmo)]
+      | .ok hv => [(pr.headerSize, tmo), ((hv.getD (pr.hdrData.cellIndex "data_length") 0).toNat, tmo)]
+
+/-! ## The second APT implementation: `Thorlabs_K10CR1._read_message`, `_wait_message`, `_send_message`, `_AptMessage.create`
+(`qmi/instruments/thorlabs/k10cr1.py`).  Message classes here *contain* the six header bytes. -/
+
+structure K10 where
+  table : List Layout        -- `_apt_message_type_table` (a dict: one class per message id)
+  hdr : Layout               -- `_AptMessageHeader`
+  hdrLen : Nat               -- the literal 6 of `read(nbytes=6)`, `message_size > 6`, `message_size - 6`
+  longFlag : Nat             -- the literal 0x80 of `hdr.dest & 0x80` / `_APT_DEVICE_ADDRESS | 0x80`
+  devAddr : Nat              -- `_APT_DEVICE_ADDRESS`
+  hostAddr : Nat             -- `_APT_HOST_ADDRESS`
+  deriving Repr
+
+/-- `_read_message`: (message class, field values) and the receive buffer afterwards; `discard_read()` empties it -/
+def k10Read (k : K10) (buf : Bytes) : Except Exc (Layout × List Int) × Bytes :=
+  match readN k.hdrLen buf with
+  | (none, b) => (.error .timeout, b)
+  | (some hb, b1) =>
+    match fromBuffer k.hdr hb with
+    | .error e => (.error e, b1)
+    | .ok hv =>
+      let msgId := hv.getD (k.hdr.cellIndex "message_id") 0
+      let len := (hv.getD (k.hdr.cellIndex "data_length") 0).toNat
+      let dest := (hv.getD (k.hdr.cellIndex "dest") 0).toNat
+      -- long message: read the payload; a partial message discards pending data and raises
+      let got : Option (Bytes × Bytes) :=
+        if dest &&& k.longFlag ≠ 0 then
+          match readN len b1 with
+          | (none, _) => none
+          | (some db, b2) => some (hb ++ db, b2)
+        else some (hb, b1)
+      match got with
+      | none => (.error .instrument, [])
+      | some (data, b2) =>
+        match k.table.find? (fun l => (l.msgId : Int) == msgId) with
+        | none => (.error .instrument, [])
+        | some mt =>
+          if data.length ≠ mt.size then (.error .instrument, [])
+          else match fromBuffer mt data with
+            | .error e => (.error e, b2)
+            | .ok vs => (.ok (mt, vs), b2)
+
+/-- the clock of `_wait_message`: the `n`-th call of `time.monotonic()` returns `t0 + n * step` -/
+structure Clock where
+  t0 : Nat
+  step : Nat
+  deriving Repr
+
+def Clock.at (c : Clock) (n : Nat) : Nat := c.t0 + n * c.step
+
+/-- the `while True` loop of `_wait_message`; `n` = `time.monotonic()` calls so far; returns also the `timeout=` values
+handed to `_read_message`.  Every successful read consumes at least the header, so `fuel = buf.length + 1` suffices. -/
+def k10WaitLoop (k : K10) (want : String) (clk : Clock) (endT : Nat) :
+    Nat → Nat → Bytes → List Nat → Except Exc (Layout × List Int) × Bytes × List Nat
+  | 0, _, buf, tmos => (.error .timeout, buf, tmos)
+  | fuel + 1, n, buf, tmos =>
+    let tmo := endT - clk.at n                -- `max(end_time - time.monotonic(), 0)`
+    match k10Read k buf with
+    | (.error e, b) => (.error e, b, tmos ++ [tmo])
+    | (.ok (mt, vs), b) =>
+      if mt.name = want then (.ok (mt, vs), b, tmos ++ [tmo])
+      else if clk.at (n + 1) > endT then (.error .timeout, b, tmos ++ [tmo])
+      else k10WaitLoop k want clk endT fuel (n + 2) b (tmos ++ [tmo])
+
+/-- `_wait_message(message_type, timeout)` -/
+def k10Wait (k : K10) (want : String) (clk : Clock) (timeout : Nat) (buf : Bytes) :
+    Except Exc (Layout × List Int) × Bytes × List Nat :=
+  k10WaitLoop k want clk (clk.at 0 + timeout) (buf.length + 1) 1 buf []
+
+/-- `_send_message(msg)`: consume one pending message (a timeout is suppressed, any other error propagates and nothing
+is written), then write.  Returns (error?, written?, buffer) -/
+def k10Send (k : K10) (msg : Bytes) (buf : Bytes) : Option Exc × Option Bytes × Bytes :=
+  match k10Read k buf with
+  | (.error .timeout, b) => (none, some msg, b)
+  | (.error e, b) => (some e, none, b)
+  | (.ok _, b) => (none, some msg, b)
+
+/-- the initialiser list of `cls.create(**kwargs)`: header fields filled in, the remaining cells from `kwargs` in field order -/
+def k10CreateVals (k : K10) (l : Layout) : List Field → List Int → List Int
+  | [], _ => []
+  | f :: fs, kw =>
+    if f.name = "message_id" then (l.msgId : Int) :: k10CreateVals k l fs kw
+    else if f.name = "data_length" ∧ l.size > k.hdrLen then ((l.size - k.hdrLen : Nat) : Int) :: k10CreateVals k l fs kw
+    else if f.name = "dest" then
+      ((if l.size > k.hdrLen then k.devAddr ||| k.longFlag else k.devAddr : Nat) : Int) :: k10CreateVals k l fs kw
+    else if f.name = "source" then (k.hostAddr : Int) :: k10CreateVals k l fs kw
+    else if f.name = "_dummy" then List.replicate f.count 0 ++ k10CreateVals k l fs kw    -- never a keyword: stays zero
+    else kw.take f.count ++ List.replicate (f.count - kw.length) 0 ++ k10CreateVals k l fs (kw.drop f.count)
+
+/-- `bytes(cls.create(**kwargs))` -/
+def k10Create (k : K10) (l : Layout) (kw : List Int) : Bytes := pack l.cells (k10CreateVals k l l.fields kw)
+
 end QmiModel.Apt
